@@ -250,7 +250,9 @@ def unpack_view(binaries, img, expected, tree, c, work, oc, keyprefix="fidelity"
     root = os.path.join(work, "unp")
     os.makedirs(root, exist_ok=True)
     # user.* xattrs cannot be set on symlinks/special files: environment, not tool behaviour
-    userx_special = any(e["type"] not in ("file", "dir") and any(k.startswith(b"user.") for k, _ in e.get("xattrs", []))
+    # ... and the host limits xattr names to 255 bytes (XATTR_NAME_MAX)
+    userx_special = any((e["type"] not in ("file", "dir") and any(k.startswith(b"user.") for k, _ in e.get("xattrs", []))) or
+                        any(len(k) > 255 for k, _ in e.get("xattrs", []))
                         for e in expected.values())
     flags = ["-C", "-O", "-T", "-q"] + ([] if userx_special else ["-X"])
     if any(len(comp) > 255 for p in expected for comp in p.split(b"/")):
